@@ -64,6 +64,12 @@ def map_expr(e, f):
         return ["not", map_expr(e[1], f)]
     if k == "cmp":
         return ["cmp", e[1], map_expr(e[2], f), map_expr(e[3], f)]
+    if k == "in":
+        return ["in", e[1], map_expr(e[2], f), list(e[3])]
+    if k == "coalesce":
+        return ["coalesce", map_expr(e[1], f), map_expr(e[2], f)]
+    if k == "if":
+        return ["if", map_expr(e[1], f), map_expr(e[2], f), map_expr(e[3], f)]
     return list(e)
 
 
@@ -111,6 +117,12 @@ def rename_ast(q, ren):
             return ["not", re_(e[1])]
         if k == "cmp":
             return ["cmp", e[1], re_(e[2]), re_(e[3])]
+        if k == "in":
+            return ["in", e[1], re_(e[2]), list(e[3])]
+        if k == "coalesce":
+            return ["coalesce", re_(e[1]), re_(e[2])]
+        if k == "if":
+            return ["if", re_(e[1]), re_(e[2]), re_(e[3])]
         return list(e)
 
     def rg(g):
@@ -192,6 +204,12 @@ def _expr_vars(q):
             walk_e(e[1])
         elif e[0] == "cmp":
             walk_e(e[2]), walk_e(e[3])
+        elif e[0] == "in":
+            walk_e(e[2])
+        elif e[0] == "coalesce":
+            walk_e(e[1]), walk_e(e[2])
+        elif e[0] == "if":
+            walk_e(e[1]), walk_e(e[2]), walk_e(e[3])
 
     def f(h):
         for x in h[1]:
@@ -639,6 +657,12 @@ def _all_vars(g):
             walk_e(e[1])
         elif e[0] == "cmp":
             walk_e(e[2]), walk_e(e[3])
+        elif e[0] == "in":
+            walk_e(e[2])
+        elif e[0] == "coalesce":
+            walk_e(e[1]), walk_e(e[2])
+        elif e[0] == "if":
+            walk_e(e[1]), walk_e(e[2]), walk_e(e[3])
 
     def g2(h):
         for x in h[1]:
@@ -668,7 +692,91 @@ def _prefixed(q, p1, p2):
     return "".join(out)
 
 
-SUITES = [C15(), C15Same()]
+# ---------------------------------------------------------------- suite 3: the prepared object itself
+class C15Prepared(Suite):
+    """The state machine of coq/Sparql/Prepared.v against the real Query object: its algebra tree (with the
+    annotations and the order of every BGP's triple patterns) is converted to the Coq type after EVERY evaluation
+    - sequential ones with and without initBindings on two graphs, and two evaluations in flight at the same
+    time - and must still be the tree prepareQuery returned."""
+    name = "prepared_state"
+    imports = "From RV Require Import Sparql.Prepared.\nSet Printing Width 1000000."
+    case_ty = "pcase"
+    obs_ty = "pobs"
+    model = "model_obs_prep"
+    oeq = "obs_eqb_prep"
+    spec = "spec_ok_prep"
+    corr = "prepareQuery; Query.algebra as walked by evaluate.evalQuery / evalPart / FrozenBindings.forget on repeated Graph.query(prepared, initBindings=...)"
+    quick_n = 70
+    thorough_n = 1200
+    timeout_s = 30.0
+
+    def __init__(self):
+        self.same = C15Same()
+
+    def gen(self, rng, i):
+        return self.same.gen(rng, i)
+
+    @staticmethod
+    def snapshot(pq):
+        try:
+            return c04.t_alg(c04._attr(pq.algebra, "p"))
+        except Exception as e:  # noqa: BLE001
+            return ["BGP", [[99, 99, 99]]]  # a tree no prepared query has
+
+    def run_impl(self, case):
+        b = case["base"]
+        text = render(b)
+        try:
+            translate_query(text)
+            pq = prepareQuery(text)
+        except Exception:  # noqa: BLE001
+            return []
+        (store, alt), _ = self.same.stores(case)
+        sts = [store, alt]
+        snaps = [self.snapshot(pq)]
+        for gi, ib in case["seq"]:
+            kw = {} if ib is None else {"initBindings": {Variable(f"v{ib[0]}"): term(ib[1])}}
+            _q(sts[gi], pq, **kw)
+            snaps.append(self.snapshot(pq))
+        it = case.get("inter")
+        if it:
+            kwa = {"initBindings": {Variable(f"v{it['a'][0]}"): term(it["a"][1])}}
+            kwb = {"initBindings": {Variable(f"v{it['b'][0]}"): term(it["b"][1])}}
+
+            def between():
+                r = _q(store, pq, **kwb)
+                snaps.append(self.snapshot(pq))      # while A is still suspended
+                return r
+            self.same._partial(store, pq, it["k"], between=between, **kwa)
+            snaps.append(self.snapshot(pq))
+        return snaps
+
+    def coq_case(self, case):
+        b = case["base"]
+        try:
+            alg = c_alg(translate_query(render(b)))
+            n = 1 + len(case["seq"]) + (2 if case.get("inter") else 0)
+        except Exception:  # noqa: BLE001
+            alg, n = "(BGP [])", 0
+        return ctuple(alg, cN(n))
+
+    def coq_obs(self, obs):
+        return clist(c_alg(a) for a in obs)
+
+    def on_timeout(self, case):
+        return []
+
+    def nontrivial(self, case, obs):
+        return len(obs) > 1
+
+    def features(self, case, obs):
+        return {"snapshots": len(obs)}
+
+    def shrink(self, case):
+        return self.same.shrink(case)
+
+
+SUITES = [C15(), C15Same(), C15Prepared()]
 
 TRUSTED = [
     "Coq 8.16.1 kernel and vm_compute",
@@ -676,6 +784,8 @@ TRUSTED = [
     "the de-duplication of the plain answer used as the reference for DISTINCT/REDUCED (on the harness's own canonical rows, never on "
     "rdflib's hash/eq), harness/c04.py (rendering, algebra conversion, observation)",
     "coq/Sparql/Variants.v: equality of all observations of a group as the reading of 'does not depend on how the query is written, prepared or stored'",
+    "coq/Sparql/Prepared.v: the algebra tree (annotations and triple-pattern order included) as THE state a prepared Query object keeps; "
+    "harness/c15.py C15Prepared.snapshot: conversion of the live object's tree after every evaluation",
 ]
 ASSUMPTIONS = [
     "prefix spellings, prepared-query re-evaluation, back ends and initBindings have no counterpart in the pure model: for these the check "
@@ -698,4 +808,6 @@ RULE = ("suite variants: every generated C04 SELECT case (12 % DISTINCT; 10 % 't
         "ends are the pre-bound variables), and a sequence of 6-7 evaluations of ONE "
         "prepareQuery object on two graphs, with no / one / another initBindings (30 % of the cases are nested-group FILTER/BIND queries whose "
         "expression mentions a variable that is out of scope there), each step compared with freshly parsed text given the same initBindings; "
+        "suite prepared_state: the same cases; after prepareQuery, after every step of the sequence, inside and after the interleaving the "
+        "tree of the live Query object is converted and must equal the tree of a fresh prepareQuery; "
         "non-trivial = some observation has a solution")
